@@ -107,6 +107,18 @@ CHECKS.update({
             "values representable in float32; dask time arrays and non-UTC zones not generated", "DESIGN.md 4 C15"),
 })
 
+CHECKS.update({
+    "C07": ("Hypothesis grammar-based generation of config trees; reference model of the call multiset + pairwise carrier/layout equivalence",
+            "A generated configuration tree is spelled through up to 17 carriers (dict, OrderedDict, YAML block/flow text, "
+            "JSON text, StringIO, str/Path to .yaml/.json files, xarray Dataset global attribute and per-variable "
+            "attributes, netCDF-3 files of both) and every layout that can express it (contexts list, single context, bare "
+            "stream mapping, bare module mapping with generated default key); Config(source).calls must equal, as a "
+            "multiset, the model's (stream, module, test, kwargs, window, region) set with func identity, Call.config() and "
+            "the contexts grouping. Unknown modules / test names are sprinkled in and must not disturb the rest.",
+            "reserved stream ids not generated; datetime windows only over dict/OrderedDict/YAML; known finding K-4 excluded "
+            "by its classifier (bare stream mapping whose tests all have null parameters)", "DESIGN.md 4 C07"),
+})
+
 NOT_APPLICABLE = {}
 
 
